@@ -12,7 +12,7 @@ import itertools
 from fractions import Fraction
 import common
 from common import enc, dec, err_kind
-from props import c16x, c16k
+from props import c16x, c16k, c16_tr
 
 ID = "C16"
 RULE = ("exhaustive small histories (all op words over {add(d,len), next} up to a length, all batch "
@@ -31,10 +31,31 @@ RULE = ("exhaustive small histories (all op words over {add(d,len), next} up to 
         "zero spelled int / bool / float / -0.0 / Fraction / huge int / tuple / None / left to the default, "
         "keep spelled bool / int / str / list / None / float, constructor and add called positionally / by "
         "keyword / mixed / with defaults, data as list / tuple / iterator / generator / Stream / deque.  "
+        "Before the build the translator (c16_tr.py) rewrites lean/ALV/Gen/C16Src.lean from the source; extra checks: the "
+        "translator run on 16 edited copies of the source text (comparison, constants, operand order, in-place sum, handler, "
+        "missing reset, stop test, statement order, add validation, defaults, closure reads) must differ or fail, on renamed "
+        "locals / changed comments must not, and on the unchanged text must reproduce the committed file.  "
         "non-trivial: at least one sample was delivered with an event playing, or the "
         "stream ended, or an add was rejected / failed, or a read raised (streamix); at least one read after an "
         "assignment (control).  distinct = distinct JSON case")
 TRUSTED = [
+    "translator harness/props/c16_tr.py (ast of audiolazy/lazy_stream.py -> lean/ALV/Gen/C16Src.lean, regenerated on every "
+    "run; theorems src_*_is_model prove the regenerated init / startLoop / sumLoop / removeLoop / next / add / xsumLoop / "
+    "xnext / xadd / xaddFail / cinit / cread equal to the hand-written machines).  What the translator trusts: (1) its reading "
+    "of a Python generator as a step function: one next() runs from the resumption point to the next yield or to the end "
+    "(`break` out of `while True` with nothing behind it), the statements before the loop run once before anything reads "
+    "their targets, the statements after the yield run at the resumption; (2) its liveness argument: only the clock local is "
+    "live across the yield, the accumulator is assigned (`= zero`) before it is read in every trip, the removal list is [] at "
+    "the yield because only the StopIteration handler appends to it and the removal block clears it (checked on the ast, "
+    "otherwise TranslationError); (3) the vocabulary mapping: deque() / [] -> empty list, `Q and cond` + `a, b = Q.popleft()` "
+    "-> recursion over the head of the queue, list.append -> `++ [x]`, `for v in L` -> recursion over L, `try: data = data + "
+    "next(v) except StopIteration: R.append(v)` -> the two match arms on the items the iterator still has (third arm in the "
+    "backend with exceptions: any other exception leaves the loop and the generator), list.remove(v) -> removeFirst by "
+    "identity, truth of a list -> not isEmpty, `iter(data)` -> a fresh object number (or the exception it raises, before "
+    "anything is stored), `raise ValueError` -> .valueError, float literals -> their exact rational value; (4) that the "
+    "attributes keep / _playing / _not_playing are touched by nothing but the translated functions and the harness' `keep` "
+    "assignment.  Cross-checked: the driver runs the hand-written machines against the real objects on every run, and the "
+    "selftest shows the translator sees 16 meaning-changing edits of the source text and ignores renamings / comments",
     "hand-written Lean models of lazy_stream.Streamix / ControlStream: ALV/Model/C16Gen.lean (generator level: "
     "iterator objects with identity, summing pass + to_remove pass with list.remove, count += 1. at the "
     "resumption; this is what the driver runs) proved equivalent to ALV/Model/C16.lean (fused) proved equal to "
@@ -73,6 +94,11 @@ ASSUMPTIONS = [
 ]
 
 MANIFEST = {
+    "technique": "proof + translator + differential tie: harness/props/c16_tr.py regenerates the generator-level model from the "
+                 "source of Streamix.__init__ / data_generator / add and ControlStream on every run (lean/ALV/Gen/C16Src.lean), "
+                 "theorems src_*_is_model prove it equal to the hand-written machines the other theorems are about "
+                 "(source_streamix_eq_spec: the regenerated machine = the specification, for every history); histories stepped on "
+                 "the real objects against the model and the spec",
     "text": "Lean 4 theorems, for every history of add/next/keep operations with arbitrary rational deltas: "
             "generator-level model of Streamix (iterator identities, two-pass removal, count at resumption) = fused "
             "state machine = log-and-closed-formula specification (start max(ceil(T_i - 1/2), moment added), "
@@ -88,13 +114,57 @@ MANIFEST = {
             "(ptrace_is_prun / xtrace_is_xrun).  Tied "
             "to /repo by stepping the real objects through the same histories (outputs, exceptions, StopIteration, "
             "container sizes, the generator frame's count; several mixers, shared StreamTeeHub copies, mixers and "
-            "ControlStreams as events, spellings and call shapes) in the exact (dyadic) regime",
-    "note": "Trusted: Lean kernel, axioms propext/Classical.choice/Quot.sound, the Python harness; models are hand "
+            "ControlStreams as events, spellings and call shapes) in the exact (dyadic) regime.  Round 5: the generator-level "
+            "model is REGENERATED from the source text by a translator (statement by statement: the three inner loops, the "
+            "stop test, the resumption, the validation order of add, both with and without exceptions) and proved equal to "
+            "the hand-written one (src_*_is_model, 13 theorems), so that source_streamix_eq_spec / source_streamix_x_eq_spec / "
+            "source_control_last_value state the property about what the source says now",
+    "note": "Trusted: Lean kernel, axioms propext/Classical.choice/Quot.sound, the Python harness incl. the translator's "
+            "reading of generators and its vocabulary mapping; the fused machine and the spec are hand "
             "written (event data = finite lists, generator protocol not modelled below the level of one next(); an "
             "exception through the generator finishes it); floating-point rounding of non-dyadic deltas, inf / nan "
             "deltas, one iterator object added twice, an inner mixer operated on after being added, -0.0 and a Stream "
             "as zero are outside the theorems",
 }
+
+# ----------------------------------------------------------------------------------------------
+# translator (harness/props/c16_tr.py): the model regenerated from the source before every build
+# ----------------------------------------------------------------------------------------------
+def regenerate(eng=None):
+    return c16_tr.regenerate(eng)
+
+
+def _committed_gen():
+    """the Gen file of the last commit, None when git cannot tell"""
+    import subprocess
+    try:
+        r = subprocess.run(["git", "-C", common.VERIF, "show", "HEAD:lean/" + c16_tr.GEN_REL.replace("\\", "/")],
+                           capture_output=True, text=True, timeout=30)
+        return r.stdout if r.returncode == 0 and r.stdout else None
+    except Exception:
+        return None
+
+
+def extra_checks(eng):
+    eng.extra["translated"] = {
+        "translator": "harness/props/c16_tr.py -> lean/" + c16_tr.GEN_REL,
+        "under_translator": c16_tr.TRANSLATED,
+        "not_translated": c16_tr.NOT_TRANSLATED,
+    }
+    try:
+        text = c16_tr.read_source()
+    except Exception as e:
+        yield ("translator-selftest", False, "cannot read the source: %r" % (e,))
+        return
+    committed = _committed_gen()
+    results = {}
+    for name, ok, detail in c16_tr.selftest(text, committed):
+        if name.endswith("committed-file-reproduced") and committed is None:
+            ok, detail = True, "no committed file to compare with (git not available)"
+        results[name] = {"ok": ok, "detail": detail}
+        yield (name, ok, detail)
+    eng.extra["translated"]["selftest"] = results
+
 
 # ----------------------------------------------------------------------------------------------
 # value transport: JSON int | "p/q" plus a kind saying which Python type the impl gets
